@@ -32,6 +32,7 @@ LEVEL_TEXT = (
     "object reaches the face padding through all five call hops; on a grid without face connections the vector form is handled as the bare component. "
     "Necessary conditions of the divergence identity; the identity itself (global, numerical) is not executed."
 )
+LEVEL_TEXT += ' Also decided (sixth seeded round): a face that is the source of a same-axis and of an axis-swapping (or a normal and a reversed) link in one call gives each halo the component, edge, order and sign its own link prescribes; the same cells on a three-axis grid with the third padded axis declared first.'
 LEVEL_NOTE = "Trusted: orientation-map geometry; xarray semantics; abstract evaluator."
 
 RULE_MAP = {"R05.1": "R04.1", "R05.2": "R04.1", "R05.3": "R04.1", "R05.4": "R04.1", "R05.5": "R04.1", "R05.6": "R04.1"}
